@@ -157,6 +157,28 @@ func headerReaderRules(c *core.Ctx) {
 			continue
 		}
 		bpos := c.Prog.Pos(fb.Pos())
+		// the parser may hand its whole work to the sibling PeekHeader (judged by C10-PEEK: refuses exactly the buffers
+		// shorter than the header, takes every field from its offset)
+		if peek := c.Prog.SSAFunc(c.Prog.LookupFunc(rel, "PeekHeader")); peek != nil && len(fb.Blocks) == 1 && len(fb.Params) == 1 {
+			var call *ssa.Call
+			n := 0
+			for _, ins := range fb.Blocks[0].Instrs {
+				if cl, ok := ins.(*ssa.Call); ok {
+					n++
+					if cl.Call.StaticCallee() == peek && len(cl.Call.Args) == 1 && cl.Call.Args[0] == ssa.Value(fb.Params[0]) {
+						call = cl
+					}
+				}
+			}
+			if ret, ok := fb.Blocks[0].Instrs[len(fb.Blocks[0].Instrs)-1].(*ssa.Return); ok && call != nil && n == 1 && len(ret.Results) == 2 {
+				e0, ok0 := ret.Results[0].(*ssa.Extract)
+				e1, ok1 := ret.Results[1].(*ssa.Extract)
+				if ok0 && ok1 && e0.Tuple == ssa.Value(call) && e1.Tuple == ssa.Value(call) && e0.Index == 0 && e1.Index == 1 {
+					c.OK("C03-HDRREAD", bkey, bpos, "hands the slice to PeekHeader and returns its results")
+					continue
+				}
+			}
+		}
 		// the size of the header: the widths of the fields of the result struct
 		total := int64(0)
 		if st, ok := fb.Signature.Results().At(0).Type().Underlying().(*types.Struct); ok {
